@@ -145,9 +145,43 @@ def units_of(prop):
     return mod
 
 
+def selftest(ids):
+    """every seeded change must be caught: apply seeded/<id>-<k>/patch.diff to a scratch copy of the repository, run the
+    property's quick check against it (must exit 1) and the seed's own demonstration (must fail)."""
+    import glob
+    import shutil
+    import subprocess
+    import tempfile
+    seeds = sorted(glob.glob(os.path.join(ROOT, "seeded", "*-*")))
+    if ids:
+        seeds = [s for s in seeds if os.path.basename(s).split("-")[0] in ids]
+    bad = 0
+    for sd in seeds:
+        pid = os.path.basename(sd).split("-")[0]
+        scr = tempfile.mkdtemp(prefix="verif-selftest.")
+        try:
+            shutil.copytree(os.path.join(REPO, "lightworks"), os.path.join(scr, "lightworks"))
+            ap = subprocess.run(["patch", "-p1", "-s", "-i", os.path.join(sd, "patch.diff")], cwd=scr, capture_output=True, text=True)
+            if ap.returncode != 0:
+                print(f"SELFTEST {os.path.basename(sd)}: patch does not apply to the current tree (skipped)")
+                continue
+            env = dict(os.environ, VERIF_REPO=scr)
+            p = subprocess.run([sys.executable, "-m", "vf.driver", pid, "quick"], cwd=ROOT, env=env, capture_output=True, text=True)
+            d = subprocess.run(["/venv/bin/python", os.path.join(sd, "demo.py")], cwd=scr, env=dict(os.environ, PYTHONPATH=scr), capture_output=True, text=True)
+            ok = p.returncode == 1 and d.returncode != 0
+            bad += not ok
+            print(f"SELFTEST {os.path.basename(sd)}: check exit {p.returncode} ({'caught' if p.returncode == 1 else 'NOT CAUGHT'}), demo exit {d.returncode}")
+        finally:
+            shutil.rmtree(scr, ignore_errors=True)
+    print(f"selftest: {len(seeds) - bad}/{len(seeds)} seeded changes caught")
+    return 0 if bad == 0 else 3
+
+
 def main(argv):
     if argv and argv[0] == "--replay":
         return replay_file(argv[1])
+    if argv and argv[0] == "--selftest":
+        return selftest(argv[1:])
     prop = argv[0]
     tier = argv[1] if len(argv) > 1 else os.environ.get("VERIF_TIER", "quick")
     seed = int(os.environ.get("VERIF_SEED", "0"))
@@ -294,8 +328,11 @@ def decide(prop, tier, seed, pm, units, results, known, wall):
         wall_s=round(wall, 2),
         violations=len(violations),
     )
-    os.makedirs(os.path.join(ROOT, "evidence"), exist_ok=True)
-    json.dump(ev, open(os.path.join(ROOT, "evidence", f"{prop}.json"), "w"), indent=1, default=str)
+    # evidence describes /repo; runs against another checkout (VERIF_REPO: seeded changes, self-test) do not overwrite it
+    evdir = os.path.join(ROOT, "evidence") if REPO == "/repo" else os.path.join(ROOT, ".cache", "evidence-scratch")
+    os.makedirs(evdir, exist_ok=True)
+    ev["repo"] = REPO
+    json.dump(ev, open(os.path.join(evdir, f"{prop}.json"), "w"), indent=1, default=str)
     print(f"[{prop} {tier}] obligations={n_obl} discharged={n_dis} bounded_cases={n_bounded} violations={len(violations)} "
           f"known={len(seen_known)} undecided={len(undecided)} wall={wall:.1f}s solver={solver_ms / 1000:.1f}s")
     if violations:
